@@ -144,7 +144,11 @@ def main(tier_: str) -> int:
     lines: list[dict[str, Any]] = broken_catalogue()
     with scratch() as d:
         with DashApp(d / 'app', fixtures=('bbb', 'tears')) as da:
-            da.add_mps()
+            # multi-period stream whose first period also carries the subtitle track (stored in the clear only: with a DRM
+            # selection the service falls back to the clear file)
+            da.add_mps(periods=[
+                dict(pid='p1', stream='bbb', start_s=4, duration_s=32, tracks=[('video', 1, 'MAIN'), ('audio', 2, 'MAIN'), ('text', 4, 'MAIN')]),
+                dict(pid='p2', stream='tears', start_s=8, duration_s=44, tracks=[('video', 1, 'MAIN'), ('audio', 2, 'MAIN')])])
             da.clock.set(now)
             c = da.client()
             from dashlive.server import models
@@ -178,7 +182,8 @@ def main(tier_: str) -> int:
                         urls.append(f'/dash/{mode}/bbb/{tmpl}' + ('?' + o if o else ''))
                     urls.append(f'/dash/{mode}/tears/{tmpl}')
                     if mode != 'odvod':
-                        for o in (['', 'timeline=1', 'depth=20'] if tier_ == 'thorough' else ['']):
+                        for o in (['', 'timeline=1', 'depth=20', 'drm=all', 'drm=clearkey', 'drm=playready&timeline=1'] if tier_ == 'thorough'
+                                  else ['', rng.choice(['drm=all', 'drm=clearkey', 'drm=playready'])]):
                             urls.append(f'/mps/{mode}/testmps/{tmpl}' + ('?' + o if o else ''))
             refused = 0
             patch_urls = []
